@@ -136,12 +136,14 @@ def gen_matrix(r, n, m, vclass, density, force=None):
     return D
 
 
-MD_KINDS = ['none', 'text', 'int', 'float', 'bool', 'taxonomy', 'multi']
+MD_KINDS = ['none', 'text', 'int', 'float', 'bool', 'taxonomy', 'multi',
+            'mixednum']
 _TEXTS = ['a', 'soil', 'gut microbiome', 'x/y', 'é', '日本', 'k__Bacteria',
           'p__[Thermi]', 'A;B', 'tab-free', "it's", 'q"uote', '', '0', '1.5',
           'None', 'nan', 'true']
 _TAXA = ['k__Bacteria', 'p__Firmicutes', 'c__Bacilli', 'o__Lactobacillales',
-         'f__é', 'g__日本', 's__x y', 'p__[Thermi]', 'a/b', 'x,y']
+         'f__é', 'g__日本', 's__x y', 'p__[Thermi]', 'a/b', 'x,y',
+         'p__Protéobactéries_éééé', 's__日本語の分類群の長い名前です']
 
 
 def gen_text(r, nonempty=False):
@@ -155,8 +157,8 @@ def gen_metadata(r, ids, kind, allow_empty_text=True):
         return None
     cats = []
     if kind == 'multi':
-        kinds = r.sample(['text', 'int', 'float', 'bool', 'taxonomy'],
-                         r.randint(2, 4))
+        kinds = r.sample(['text', 'int', 'float', 'bool', 'taxonomy',
+                          'mixednum'], r.randint(2, 4))
     else:
         kinds = [kind]
     used = set()
@@ -183,6 +185,11 @@ def gen_metadata(r, ids, kind, allow_empty_text=True):
                                     r.random()])
             elif k == 'bool':
                 d[name] = r.random() < .5
+            elif k == 'mixednum':
+                # "all numeric": whole numbers as int, the rest as float (what
+                # JSON tables typically hold); the first id gets an int
+                d[name] = r.randint(0, 14) if (not md or r.random() < .5) \
+                    else r.choice([6.5, 7.25, 0.125, 1e-3, 99.75])
             elif k == 'taxonomy':
                 d[name] = [r.choice(_TAXA) for _ in range(r.randint(1, 4))]
         md.append(d)
